@@ -166,6 +166,8 @@ pub struct Trace {
     pub hook_restored: Option<bool>,
     /// Event count at every quiescent point.
     pub quiescent_at: Vec<usize>,
+    /// Virtual time at every quiescent point.
+    pub quiescent_vtime: Vec<Duration>,
     /// Gates still armed when the execution stopped.
     pub armed_at_end: Vec<String>,
     pub timers_at_end: usize,
@@ -258,6 +260,7 @@ pub fn execute(
         let quiescent = !woken || noprog >= cfg.k_noprogress;
         if quiescent {
             tr.quiescent_at.push(tr.events.len());
+            tr.quiescent_vtime.push(cv::clock_offset().unwrap_or_default());
         }
 
         let mut opts: Vec<Opt> = Vec::new();
